@@ -9,6 +9,11 @@ def explicit_job(job, evs):
     j.pop("explore", None)
     end = evs[-1]
     j["sched"] = end.get("sched", [])
+    solo = (evs[0].get("cfg") or {}).get("solo")
+    if solo:
+        for st in j.get("stages", []):
+            if st.get("mode") == "sched":
+                st["solo"] = solo
     inj = (evs[0].get("cfg") or {}).get("inject")
     if inj:
         for st in j.get("stages", []):
